@@ -31,6 +31,7 @@ Next == /\ l <= Len(Trace)
                   /\ IF PartialOK(e) THEN TRUE ELSE PrintT(<<"REJ", l, "C13", "NONE">>)
                   /\ IF PayloadOK(e) THEN TRUE ELSE PrintT(<<"REJ", l, "C06", IF Dev_LinkageTypeIgnored(e) THEN "Dev_LinkageTypeIgnored" ELSE "NONE">>)
              [] e.ev = "selfpair" -> IF SelfPairOK(e) THEN TRUE ELSE PrintT(<<"REJ", l, IF e.out = "panic" \/ e.part = "panic" THEN "C05" ELSE "C13", "NONE">>)
+             [] e.ev = "ptype" -> IF PTypeOK(e) THEN TRUE ELSE PrintT(<<"REJ", l, IF e.out = "panic" \/ e.part = "panic" THEN "C05" ELSE "C13", "NONE">>)
              [] e.ev = "colpayload" ->
                   IF ColPayloadOK(e) THEN TRUE ELSE PrintT(<<"REJ", l, IF e.out = "panic" THEN "C05" ELSE "C06", "NONE">>)
              [] OTHER -> PrintT(<<"REJ", l, "C06", "unknown-event">>)
